@@ -426,11 +426,15 @@ func progScenarios() []vrt.Scenario {
 	for _, p := range progs {
 		p := p
 		name := "prog " + p.Name
-		scs = append(scs, vrt.Scenario{Name: name, New: func() vrt.Instance {
+		sc := vrt.Scenario{Name: name, New: func() vrt.Instance {
 			in := bp.New(p)
 			in.NoProbe = true
 			return &progInst{Inst: in, name: name}
-		}})
+		}}
+		if p.Name == "async-handlers" {
+			sc.Bound = 1 // nine tasks: bound 2 is C02's job, here it would only hit the cap
+		}
+		scs = append(scs, sc)
 	}
 	return scs
 }
